@@ -193,6 +193,11 @@ def prepare_evo_aspirate_dispense_parameters(
             # User-specified integers from 1-8 need to be converted to Tecan logic
             tip = int_to_tip(tip)
         tecan_tips.append(tip)
+    if Tip.Any in tecan_tips or len(set(tecan_tips)) != len(tecan_tips):
+        raise ValueError("Invalid tips: Tips have to be distinct and out of tips 1-8.")
+    if tecan_tips != sorted(tecan_tips) or wells_list != sorted(set(wells_list)):
+        # EVOware pairs the selected tips in ascending order with the selected wells in ascending row order
+        raise ValueError("Invalid wells/tips: Wells and tips have to be given in ascending order without repeats.")
 
     if arm is None:
         raise ValueError("Missing required paramter: arm")
